@@ -205,6 +205,10 @@ def _save_file(
         tensor = value.const_value
         assert tensor is not None
         if tensor.nbytes < size_threshold_bytes:
+            if isinstance(tensor, ir.ExternalTensor):
+                # Below the threshold the tensor is stored inline: load an already-external
+                # tensor into memory, as the raw-data backend does
+                value.const_value = ir.external_data.convert_tensors_from_external([tensor])[0]
             continue
         tensors_to_save.append(tensor)
         values_to_save.append(value)
